@@ -240,7 +240,8 @@ Definition geom_entry (g : gen) (s : site) : site :=
   let '(sh, c, r, f) := s in
   match g with
   | NP1 => (sh, 27 + 32 * c - 16 * (r mod 2), 20 * r, f)
-  | _ => (sh, 27 + 32 * c, 15 * r, f)
+  | NP21 | NP24 => (sh, 27 + 32 * c, 15 * r, f)
+  | NPU => (sh, 6 * c, 6 * r, f)          (* 8 columns and 48 rows on a 6 um pitch; z = 6 * row *)
   end.
 
 (* canonical dense shank maps (what SpikeGLX writes for the default IMRO table) *)
